@@ -54,8 +54,7 @@ def tags_of(clause):
 
 def run_unit(name, contracts, tier):
     t0 = time.time()
-    u = U.build(name, contracts, 'vacuity')
-    r = U.run_verus(u, timeout=P.UNIT_TIMEOUT.get(name, 900))
+    u, r = U.build_and_run(name, contracts, 'vacuity', timeout=P.UNIT_TIMEOUT.get(name, 900))
     runs = [r]
     if tier == 'thorough':
         # stability: re-prove with a different resource limit and z3 seed; instability is reported
@@ -119,6 +118,7 @@ def main():
 
     known = load_known()
     violations, knowns_hit, others, vac_missing, unstable = [], [], [], [], []
+    stub_blocked = []
     obligations = discharged = 0
     fn_rows, trusted_all, rule_log, samples = [], [], [], []
     smt_ms = 0
@@ -214,7 +214,14 @@ def main():
             if k:
                 knowns_hit.append((k, d))
             else:
-                violations.append((un, d))
+                # a failed obligation of a function that calls a NEW helper (stubbed with an empty contract) cannot be told from a
+                # harmless extraction of a helper function: not a verdict
+                seg0 = next((s for s in u.segments if s['name'] == d['owner'] and s['kind'] == 'verify'), None)
+                text0 = '\n'.join(u.text.split('\n')[seg0['gline0'] - 1:seg0['gline1']]) if seg0 else ''
+                if any(re.search(r'\b' + re.escape(a['function']) + r'\s*\(|\b' + re.escape(a['function']) + r'\b\s*[,)]', text0) for a in u.autostubs):
+                    stub_blocked.append((un, d))
+                else:
+                    violations.append((un, d))
         for s in u.segments:
             if s['kind'] in ('verify', 'trusted', 'assume'):
                 fr = r['functions'].get(s['fn']) or next((v for k, v in r['functions'].items() if k.endswith('::' + s['fn'])), None)
@@ -249,6 +256,10 @@ def main():
     # assumed contract: without a definite failure elsewhere the property is UNDECIDED, never an alarm and never a pass
     if degraded and not violations:
         undecided(f'function(s) outside the verifier\'s reach, emitted as assumed: {degraded}')
+    autostubs = [f'{un}:{a["function"]} ({a["file"]})' for un, (u, runs, wall) in results.items() for a in u.autostubs]
+    if autostubs and not violations:
+        undecided(f'the verified code calls function(s) that have no contract (new helpers), stubbed with an empty contract: {autostubs}; '
+                  f'obligations that cannot be decided without a contract for them: {sorted({un + "::" + d["owner"] for un, d in stub_blocked})}')
 
     os.makedirs(EVID, exist_ok=True)
     os.makedirs(REPLAY, exist_ok=True)
@@ -305,6 +316,8 @@ def main():
     }
     if degraded:
         ev['coverage']['functions_degraded_to_assumed'] = degraded
+    if autostubs:
+        ev['coverage']['functions_stubbed_without_contract'] = autostubs
     with open(os.path.join(EVID, pid + '.json'), 'w') as f:
         json.dump(ev, f, indent=1)
     for l in out_lines:
